@@ -49,6 +49,12 @@ def fork_run(fn, arg, timeout: int = CHILD_TIMEOUT):
         code = 97
         try:
             os.close(r)
+            # A full collection right after the fork (cheap: everything inherited is frozen) resets the
+            # collector's long_lived_total / long_lived_pending, which gc.freeze() leaves as they were
+            # in the parent: whether the child's first FULL collection happens - and with it the
+            # finalisation of generators an aborted conversion left suspended, which the tracer sees
+            # as call events - depended on the age of the template through those two counters.
+            gc.collect()
             signal.alarm(timeout)
             faulthandler.dump_traceback_later(max(1, timeout - 1), exit=False, file=sys.__stderr__)
             res = fn(arg)
